@@ -129,7 +129,7 @@ class DynamicStructuredGrammaticalEvolutionRepresentation(
         return random_tree(genotype.random, self.grammar, decider)
 
     def mutate(self, random: RandomSource, genotype: Genotype, **kwargs) -> Genotype:
-        dna = deepcopy(genotype.dna)
+        dna = {key: list(genes) for key, genes in genotype.dna.items()}
         alternatives = list(genotype.dna.keys())
         if alternatives:
             rkey = random.choice(alternatives)
